@@ -31,6 +31,19 @@ type cacheEv struct {
 	Panic bool   `json:"panic"`
 	Tr    int    `json:"tr"`
 	NRes  int    `json:"nres"`
+	// statistics of the search cache after the operation (X03: the layer composed with LRU.tla)
+	SH  int64 `json:"sh"`
+	SM  int64 `json:"sm"`
+	SE  int64 `json:"se"`
+	SZ  int   `json:"sz"`
+	Cap int   `json:"cap"`
+	TTL int   `json:"ttl"`
+}
+
+func (d *cacheDriver) emit(ev *cacheEv) {
+	st := d.mdb.GetCacheStats()["search"]
+	ev.SH, ev.SM, ev.SE, ev.SZ = st.Hits, st.Misses, st.Evictions, st.Size
+	d.w.emit(ev)
 }
 
 type cacheDriver struct {
@@ -74,7 +87,7 @@ func (d *cacheDriver) reset(corpus string, capacity int, ttlTicks int) {
 	}
 	d.mdb = database.VerifNewMonitoredDatabase(d.c.db, capacity, d.ttl)
 	d.ver = 1
-	d.w.emit(&cacheEv{Op: "reset", Tr: d.tr})
+	d.emit(&cacheEv{Op: "reset", Tr: d.tr, Cap: capacity, TTL: ttlTicks})
 }
 
 func (d *cacheDriver) hits() int64 { return d.mdb.GetCacheStats()["search"].Hits }
@@ -116,7 +129,7 @@ func (d *cacheDriver) search(q string, o database.SearchOptions, mon bool) {
 		// oracle: the uncached engine on the same database, now
 		ev.Fresh = d.in.answerID(d.c, toHits(d.mdb.SearchUniversal(q, o)))
 	}()
-	d.w.emit(ev)
+	d.emit(ev)
 }
 
 func (d *cacheDriver) update(version int) {
@@ -147,31 +160,31 @@ func (d *cacheDriver) update(version int) {
 	d.dirty = true
 	d.ver = version
 	d.reindex()
-	d.w.emit(&cacheEv{Op: "update", N: version, Tr: d.tr})
+	d.emit(&cacheEv{Op: "update", N: version, Tr: d.tr})
 }
 
 func (d *cacheDriver) apply(op []interface{}) {
 	switch op[0].(string) {
 	case "invalidate":
 		d.mdb.InvalidateCache()
-		d.w.emit(&cacheEv{Op: "invalidate", Tr: d.tr})
+		d.emit(&cacheEv{Op: "invalidate", Tr: d.tr})
 	case "enable":
 		b := op[1].(bool)
 		d.mdb.EnableCache(b)
-		d.w.emit(&cacheEv{Op: "enable", B: b, Tr: d.tr})
+		d.emit(&cacheEv{Op: "enable", B: b, Tr: d.tr})
 	case "cleanup":
 		n := d.mdb.CleanupExpiredCache()["search"]
-		d.w.emit(&cacheEv{Op: "cleanup", N: n, Tr: d.tr})
+		d.emit(&cacheEv{Op: "cleanup", N: n, Tr: d.tr})
 	case "tick":
 		if d.ttl > 0 {
 			d.mdb.VerifAdvance(time.Hour)
 		}
-		d.w.emit(&cacheEv{Op: "tick", Tr: d.tr})
+		d.emit(&cacheEv{Op: "tick", Tr: d.tr})
 	case "update":
 		d.update(num(op[1]))
 	case "stats":
 		d.mdb.GetCacheStats()
-		d.w.emit(&cacheEv{Op: "stats", Tr: d.tr})
+		d.emit(&cacheEv{Op: "stats", Tr: d.tr})
 	}
 }
 
@@ -223,6 +236,7 @@ func cacheRandom(args []string) int {
 	out := fs.String("out", "", "trace")
 	ntr := fs.Int("traces", 30, "traces")
 	length := fs.Int("len", 80, "ops")
+	pool := fs.Int("pool", 0, "draw the requests of a trace from a pool of this many (query, options) pairs, so that hits, evictions and expiry are frequent")
 	fs.Parse(args)
 	r := seededRand(5)
 	d := &cacheDriver{w: newTraceWriter(*out), in: newInterner()}
@@ -240,8 +254,22 @@ func cacheRandom(args []string) int {
 		d.reset(corpus, []int{1, 2, 3, 50}[r.Intn(4)], r.Intn(3))
 		nq := 2 + r.Intn(len(qs)-1)
 		base := scenario{Limit: 5}
+		type request struct {
+			q string
+			o database.SearchOptions
+		}
+		var reqs []request
+		for k := 0; k < *pool; k++ {
+			s := base
+			s.Limit = []int{1, 3, 5, 7}[r.Intn(4)]
+			s.NLP, s.Fuzzy, s.AllPlat = r.Intn(2) == 0, r.Intn(2) == 0, r.Intn(2) == 0
+			reqs = append(reqs, request{qs[r.Intn(nq)], s.options()})
+		}
 		for i := 0; i < *length; i++ {
 			switch x := r.Intn(100); {
+			case x < 70 && len(reqs) > 0:
+				rq := reqs[r.Intn(len(reqs))]
+				d.search(rq.q, rq.o, r.Intn(3) == 0)
 			case x < 70:
 				s := base
 				// vary one or two option fields around the base vector
